@@ -12,11 +12,20 @@ import (
 	"github.com/ory/keto/internal/namespace/ast"
 	"github.com/ory/keto/internal/relationtuple"
 	"github.com/ory/keto/internal/x"
+	"github.com/ory/keto/internal/x/graph"
 	"github.com/ory/keto/ketoapi"
 )
 
 func checkNotImplemented(_ context.Context, resultCh chan<- checkgroup.Result) {
 	resultCh <- checkgroup.Result{Err: errors.WithStack(errors.New("not implemented"))}
+}
+
+// withFreshVisited runs the check with its own visited set, see
+// graph.WithFreshVisited.
+func withFreshVisited(f checkgroup.CheckFunc) checkgroup.CheckFunc {
+	return func(ctx context.Context, resultCh chan<- checkgroup.Result) {
+		f(graph.WithFreshVisited(ctx), resultCh)
+	}
 }
 
 func toTreeNodeType(op ast.Operator) ketoapi.TreeNodeType {
@@ -97,6 +106,14 @@ func (e *Engine) checkSubjectSetRewrite(
 			continue
 		}
 
+		// The operands of an intersection must not share a visited set:
+		// a subject set that was visited (and skipped) while evaluating one
+		// operand says nothing about the other operand.
+		ctx := ctx
+		if rewrite.Operation == ast.OperatorAnd {
+			ctx = graph.WithFreshVisited(ctx)
+		}
+
 		switch c := child.(type) {
 
 		case *ast.TupleToSubjectSet:
@@ -128,6 +145,12 @@ func (e *Engine) checkSubjectSetRewrite(
 		}
 	}
 
+	if rewrite.Operation == ast.OperatorAnd {
+		for i := range checks {
+			checks[i] = withFreshVisited(checks[i])
+		}
+	}
+
 	return func(ctx context.Context, resultCh chan<- checkgroup.Result) {
 		resultCh <- op(ctx, checks)
 	}
@@ -149,6 +172,11 @@ func (e *Engine) checkInverted(
 		Trace("invert check")
 
 	var check checkgroup.CheckFunc
+
+	// The inverted check must not share a visited set with the rest of the
+	// request: a skipped subject set would be reported as "not a member", which
+	// the inversion turns into "is a member".
+	ctx = graph.WithFreshVisited(ctx)
 
 	switch c := inverted.Child.(type) {
 
@@ -182,7 +210,7 @@ func (e *Engine) checkInverted(
 
 	return func(ctx context.Context, resultCh chan<- checkgroup.Result) {
 		innerCh := make(chan checkgroup.Result)
-		go check(ctx, innerCh)
+		go check(graph.WithFreshVisited(ctx), innerCh)
 		select {
 		case result := <-innerCh:
 			// invert result here
